@@ -541,7 +541,6 @@ def run_path(case, drv):
         got_g = np.array(rx.raw_snr, dtype=float)
         if np.any(~((np.abs(got_g - exp_g) <= 1e-9) | (np.isinf(exp_g) & (got_g == exp_g)))):
             res.fail(f'trx-report: receiver {rx.uid!r} reports a GSNR that is not signal/(ase+nli) of the received spectrum')
-    S.classify_raman_pump_order(res, rec)
     res.nontrivial = ('Fiber' in kinds or 'RamanFiber' in kinds) and ('Edfa' in kinds or 'Multiband_amplifier' in kinds)
     res.stats.update({f'{case["kind"]}_cases': 1, 'path_elements': len(rec.calls), 'path_channels': nchan,
                       'path_addNli_calls': nli_guard, 'op_calls_monitored': len(rec.op_events),
